@@ -473,7 +473,16 @@ class Engine:
     if fn.__closure__:
       for n, c in zip(fn.__code__.co_freevars, fn.__closure__):
         env.set(n, c.cell_contents)
-    return Closure(node, env, self, name=fn.__qualname__, owner=fn.__qualname__)
+    c = Closure(node, env, self, name=fn.__qualname__, owner=fn.__qualname__)
+    # the class a method was defined in (for zero-argument super()): resolved through the qualified name
+    parts = fn.__qualname__.split('.')
+    if len(parts) >= 2 and '<locals>' not in parts:
+      k = fn.__globals__.get(parts[0])
+      for p_ in parts[1:-1]:
+        k = getattr(k, p_, None)
+      if inspect.isclass(k):
+        c.defining_class = k
+    return c
 
   def invoke(self, target, *args, **kw):
     """Calls target and returns ('return', value) or ('raise', exc_name)."""
@@ -911,6 +920,8 @@ class Engine:
     return self.getattr(obj, e.attr)
 
   def getattr(self, obj, attr):
+    if isinstance(obj, Obj) and 'super_lookup' in obj.__dict__:
+      return obj.__dict__['super_lookup'](attr)
     if isinstance(obj, Obj):
       if not hasattr(obj, attr):
         # abstract instance of a real class: methods / properties not supplied by the contract are taken from the class source
@@ -1295,7 +1306,44 @@ class Engine:
       raise Unsupported('symbolic power')
     raise Unsupported(f'operator {t.__name__}')
 
+  def _zero_arg_super(self, env):
+    """super() inside a method executed for a class-backed abstract object: attribute lookup continues in the MRO of the object's class
+    after the class the running method was defined in."""
+    fr = env
+    while fr is not None and not hasattr(fr, 'func'):
+      fr = getattr(fr, 'parent', None)
+    c = getattr(fr, 'func', None)
+    owner = getattr(c, 'defining_class', None)
+    params = [p.arg for p in c.node.args.posonlyargs + c.node.args.args] if c is not None else []
+    if owner is None or not params:
+      raise Unsupported('super() outside a method of a known class')
+    obj = fr.vars.get(params[0])
+    cls = obj.__dict__.get('class_ref') if isinstance(obj, Obj) else None
+    if cls is None or owner not in cls.__mro__:
+      raise Unsupported('super() on an object that is not a class-backed instance of the defining class')
+    rest = cls.__mro__[cls.__mro__.index(owner) + 1:]
+    engine = self
+
+    class _Super(Obj):
+      pass
+    proxy = _Super(kind='super-proxy')
+
+    def lookup(attr):
+      for k in rest:
+        if attr in vars(k):
+          raw = vars(k)[attr]
+          if isinstance(raw, property):
+            return engine.call_closure(engine.load_function(raw.fget), [obj], {})
+          if isinstance(raw, types.FunctionType):
+            return SymCallable(lambda en, *a, **kw: en.call_closure(en.load_function(raw), [obj] + list(a), dict(kw)), f'super().{attr} ({k.__name__})')
+          return raw
+      raise PathRaise('AttributeError')
+    proxy.__dict__['super_lookup'] = lookup
+    return proxy
+
   def ex_Call(self, e, env):
+    if isinstance(e.func, ast.Name) and e.func.id == 'super' and not e.args and not e.keywords:
+      return self._zero_arg_super(env)
     f = self.eval(e.func, env)
     args = self._elts(e.args, env)
     kw = {}
